@@ -850,6 +850,39 @@ fn main() {
         });
         std::process::exit(0);
       }
+      "router_multipart_flags" => {
+        // public API: ROUTER.send_multipart([identity, "a", "b"]) with NO MORE flags set by the application, to a DEALER
+        // peer over tcp; prints how the payload arrives
+        let rt = tokio::runtime::Builder::new_multi_thread().worker_threads(2).enable_all().build().unwrap();
+        let got = rt.block_on(async move {
+          let ctx = rzmq::Context::new().unwrap();
+          let router = ctx.socket(rzmq::SocketType::Router).unwrap();
+          let dealer = ctx.socket(rzmq::SocketType::Dealer).unwrap();
+          dealer.set_option_raw(rzmq::socket::options::ROUTING_ID, b"P").await.unwrap();
+          dealer.set_option(rzmq::socket::options::RCVTIMEO, 800i32).await.unwrap();
+          router.set_option(rzmq::socket::options::RCVTIMEO, 1500i32).await.unwrap();
+          router.bind("tcp://127.0.0.1:0").await.unwrap();
+          let ep = String::from_utf8(router.get_option(rzmq::socket::options::LAST_ENDPOINT).await.unwrap()).unwrap();
+          dealer.connect(&ep).await.unwrap();
+          tokio::time::sleep(Duration::from_millis(300)).await;
+          dealer.send(rzmq::Msg::from_vec(b"hello".to_vec())).await.unwrap();
+          let first = router.recv_multipart().await.unwrap();
+          let id = first[0].data().unwrap_or(&[]).to_vec();
+          let frames = vec![rzmq::Msg::from_vec(id), rzmq::Msg::from_vec(b"a".to_vec()), rzmq::Msg::from_vec(b"b".to_vec())];
+          router.send_multipart(frames).await.unwrap();
+          let mut msgs = Vec::new();
+          for _ in 0..3 {
+            match dealer.recv_multipart().await {
+              Ok(fs) => msgs.push(fs.iter().map(|m| String::from_utf8_lossy(m.data().unwrap_or(&[])).into_owned()).collect::<Vec<_>>()),
+              Err(_) => break,
+            }
+          }
+          msgs
+        });
+        let whole = got.len() == 1 && got[0].iter().filter(|s| !s.is_empty()).cloned().collect::<Vec<_>>() == vec!["a".to_string(), "b".to_string()];
+        println!("router_multipart_flags received={:?} {}", got, if whole { "one message" } else { "SPLIT" });
+        std::process::exit(0);
+      }
       "dealer_burst" => {
         // dealer_burst <n>: public API, ROUTER bound on tcp, DEALER connects and sends n messages at once (before the
         // connection is established they go to the DEALER's pending queue); counts what the ROUTER receives
